@@ -1,7 +1,7 @@
 (* Extract.v — extraction of the executable models for the correspondence checks.
-   Directives in force: those of ExtrOcamlBasic only (bool, option, unit, list, prod,
-   sumbool, comparison mapped to OCaml's own types); nat, N, Z, positive stay the extracted
-   inductive types. No Extract Constant. *)
+   Directives in force: those of ExtrOcamlBasic only (Extract Inductive bool, option, unit,
+   list, prod, sumbool, sumor => OCaml's own types; Extract Inlined Constant andb => "(&&)",
+   orb => "(||)"); nat, N, Z, positive stay the extracted inductive types. None of our own. *)
 From Coq Require Import ExtrOcamlBasic.
 From Coq Require Import List NArith ZArith.
 From VQ Require Import Fifo Heap Manager SliceJob SliceBatch SliceDisp SliceWake SliceResp SlicePool Lifecycle Codec Lockset HB.
